@@ -24,6 +24,8 @@ props.prop(
     not_decided='staleness through objects shared by reference (an ROI edited in place behind a memoised state), '
                 'writes to public attributes from outside the class, array contents mutated behind update_components',
     assumptions=['memo caches are only created by glue.core.decorators.memoize'])
+props.also('C05',
+           'that the array reducers never write a possibly memoised argument in place')
 
 MEMOIZE = 'glue.core.decorators.memoize'
 DECOS = 'glue.core.decorators'
